@@ -12,7 +12,9 @@ open Flatland.Tree Flatland.PyList Flatland.C10
 /-- every stored child is an element of a declared field class, stored under that field's name,
     and its stored parent pointer designates the mapping -/
 def KidsOK (pid : Nat) (subs : List Schema) (kids : List Node) : Prop :=
-  ∀ c ∈ kids, c.parent = some pid ∧ c.sch ∈ subs ∧ c.key = c.sch.key
+  ∀ c ∈ kids, c.parent = some pid ∧ c.sch ∈ subs ∧ c.key = c.sch.key ∧
+    -- the member's own `optional` / `name` are its field's (no instance-level override)
+    c.ni.optOv = none ∧ c.ni.nameOv = none
 
 structure MapInv (n : Node) : Prop where
   kids : KidsOK n.id n.sch.subs n.kids
@@ -24,9 +26,9 @@ structure MapInv (n : Node) : Prop where
 
 /-- a stored child carries the key as its `.name` (fields are named) -/
 def NamedAfterKey (n : Node) : Prop :=
-  ∀ c ∈ n.kids, c.sch.name = some c.key
+  ∀ c ∈ n.kids, c.name = some c.key
 
 /-- the schema is one `Dict.of` accepts and the generators produce: named fields -/
-def FieldsNamed (s : Schema) : Prop := ∀ f ∈ s.subs, ∃ nm, f.info.name = some nm
+def FieldsNamed (s : Schema) : Prop := ∀ f ∈ s.subs, f.kind ≠ .slot ∧ ∃ nm, f.info.name = some nm
 
 end Flatland.C10.Spec
